@@ -24,7 +24,7 @@ IsErr(r) == "err" \in DOMAIN r
 NoPc  == [open |-> FALSE, guid |-> "", proto |-> <<>>, pts |-> <<>>, reals |-> <<>>, meta |-> <<>>]
 NoImg == [open |-> FALSE, guid |-> "", reps |-> <<>>, meta |-> <<>>]
 EmptyScene == [guid |-> "", root |-> <<>>, exts |-> <<>>, blobs |-> <<>>, pcs |-> <<>>, images |-> <<>>,
-               pc |-> NoPc, im |-> NoImg, fin |-> FALSE, dead |-> FALSE]
+               pc |-> NoPc, im |-> NoImg, fin |-> FALSE, dead |-> FALSE, custom |-> FALSE]
 
 EInit == sc = EmptyScene /\ file = [img |-> <<>>, L |-> <<>>, xml |-> <<>>] /\ res = Ok(0)
 
@@ -143,9 +143,11 @@ IM_Finalize(r) ==
     /\ res' = r /\ UNCHANGED file
 IM_Drop == sc.im.open /\ sc' = [sc EXCEPT !.im = NoImg] /\ res' = Ok(0) /\ UNCHANGED file
 
-W_Finalize(r) ==
+\* `custom`: the caller transformed the XML (finalize_customized_xml); what the transformer did to
+\* namespace declarations is the caller's business
+W_Finalize(r, custom) ==
     /\ (sc.guid = "") => IsErr(r)
-    /\ sc' = [sc EXCEPT !.fin = IsOk(r)]
+    /\ sc' = [sc EXCEPT !.fin = IsOk(r), !.custom = custom]
     /\ res' = r /\ UNCHANGED file
 
 \* ------------------------------------------------------------------ the finalized file
